@@ -53,6 +53,11 @@ with a concrete layout unless noted):
   m8 git extras(): index paths in subdirectories not subtracted (versioned files deleted)
   h1 harmless: filter rewritten as comprehension + helper, iter_deletables as one expression (clean)
   fix: the proposed repair (stays clean, the three finding families disappear, model mode `x`)
+  s1 seeded: the repaired filter memoises parent directories "free of control names" before their own
+     ancestors are checked - needs >= 2 candidates sharing a subdirectory chain below a nested control
+     directory that extras() descends into (git outer + nested bzr; bzr outer versioning a directory
+     that holds .git); covered on every seed by two pinned scenarios (also corpus/C46/) and by the
+     generator's populated nested trees (several files in each of several subdirectories, depth 2-3)
 """
 import ast
 import os
